@@ -54,6 +54,13 @@ def accumulator(prog, rep, tag):
             rep.ob(P, "propagation_delay-writer:%s%s" % (b.root_short, tag), ok or b.root_short == "SubDevice::new", "SubDevice.propagation_delay written in %s %s" % (b.root_short, d), loc=q.loc(b, bi, si), how="dataflow")
     rep.floor("C17 propagation_delay writers" + tag, n, 1)
     b = prog.body("dc::configure_subdevice_offsets")
+    # the delay is assigned on every way out: a DC device that leaves through the "nothing upstream" exit keeps the
+    # accumulated value too (a second branch below a root without DC starts at what the first branch accumulated;
+    # left at its initial 0 the programmed delays would decrease in processing order)
+    wr = {bi for (bi, si, kind, pl) in q.field_accesses(b, "SubDevice", "propagation_delay") if kind == "write"}
+    rets = [r for r in b.return_blocks() if not b.blocks[r].get("cleanup")]
+    bad = [r for r in rets if not b.every_path_passes(0, r, wr)]
+    rep.ob(P, "delay-assigned-on-every-exit" + tag, bool(wr) and bool(rets) and not bad, "every return of configure_subdevice_offsets is preceded by propagation_delay <- *delay_accum on every path (%d write sites, %d returns)" % (len(wr), len(rets)), loc=b.span)
     # every write through *delay_accum is a saturating_add of the previous value
     ok = True
     cnt = 0
